@@ -68,6 +68,7 @@ type Enc struct {
 	inputs   []string
 	warnings []string
 	unsupported string // non-empty: function could not be encoded soundly
+	gmTerms     map[string]*ssa.Global // spec terms that denote an immutable package-level map
 	ghostEntry map[string]Term
 
 	oldState *State
